@@ -205,6 +205,8 @@ func (c *IAMCache) GetUserAccount(access string) (Account, error) {
 	a, err := c.service.GetUserAccount(access)
 	if err != nil {
 		verifhook.At("iam.missed", "access", access)
+	}
+	if err != nil {
 		return Account{}, err
 	}
 
